@@ -788,6 +788,13 @@ func (p *Parser[V]) Parse(str string, idents Identifiers[V]) (ast AST, err error
 			SetComments(p.allowComments).
 			SetComfort(p.comfort).
 			Start()
+	// The tokenizer runs in its own goroutine and sends on an unbuffered
+	// channel. If parsing stops before the end of the input is reached,
+	// the remaining tokens are consumed to allow the goroutine to terminate.
+	defer func() {
+		for range tokenizer.tok {
+		}
+	}()
 
 	ast, err = p.parseLet(tokenizer, idents)
 	if err != nil {
